@@ -11,16 +11,16 @@ CHECKS = {
    text="Exploration with a deciding oracle: millions of f64 inputs constructed at rounding boundaries (every binade, ties, +-epsilon at depths up to 10^6 digits, cut-offs, range ends, 19-digit ties, seams, continued-fraction worst cases) are executed by the real code in every feature configuration and each result is judged by an independent exact decision procedure; hook events prove which internal tier decided each case and the run fails closed if a tier was never observed. Not a proof: 'held on the executions counted in the evidence'.",
    note="Trusts the harness oracle (cross-checked against Python integers on a sample of every run, Rust std on disagreement, seeded defects) and the x86_64/64-bit-limb build."),
  "C02": dict(engine="eng_parse", ref="DESIGN.md §9 C02",
-   technique="runtime monitoring: exact-rounding oracle on f32 boundary workloads incl. double-rounding probes, all configurations, offline Python re-check",
-   text="As C01 for f32, plus probes whose f64-then-f32 rounding differs from direct rounding (counted; the run fails closed if none was generated).",
+   technique="runtime monitoring: exact-rounding oracle on f32 boundary workloads incl. double-rounding probes and short-significand worst cases, all configurations; bounded-exhaustive sweep of every significand below 2^32 at exponents -22..22 against an integer oracle (strided in quick, complete in thorough); offline Python re-check",
+   text="As C01 for f32, plus probes whose f64-then-f32 rounding differs from direct rounding (counted; the run fails closed if none was generated), short-significand continued-fraction worst cases (where a shortcut through a wider type double-rounds), and a sweep of every decimal w x 10^q with w < 2^32, |q| <= 22 (every 2039th w in quick = 6x10^8 cases; all 1.9x10^11 in thorough, flag set by the run when it completed) judged by exact u128 rounding.",
    note="Same trusted base as C01."),
  "C03": dict(engine="eng_parse", ref="DESIGN.md §9 C03",
    technique="runtime monitoring: round-trip monitor (bit equality) over enumerated f32 patterns and structured/random f64 patterns, three renderings",
-   text="Every finite non-negative f32 (strided in quick, complete in thorough) and every f64 binade x structured fractions plus random patterns is rendered shortest / 9|17 digits / exact and parsed back; monitor is bit equality with the original. Exhaustive only for f32 in thorough (flag set by the run when it completed).",
+   text="Every finite non-negative f32 (strided in quick, complete in thorough) and every f64 binade x structured fractions plus random patterns is rendered shortest / 9|17 digits / exact, laid out scientific / integer-only / fraction-only / positional (exponent 0, as `{}` prints; powers of two and their neighbours in all four layouts) and parsed back; monitor is bit equality with the original. Exhaustive only for f32 in thorough (flag set by the run when it completed).",
    note="Renderers (Rust std formatting, harness big integers) are trusted; a mismatch counts only when the exact oracle confirms the rendering."),
  "C04": dict(engine="eng_parse", ref="DESIGN.md §9 C04",
    technique="runtime monitoring: panic/abort monitor (catch_unwind + process status) on hostile valid inputs in optimised and debug-assertion+overflow-check builds of every configuration",
-   text="Exploration: deterministic grid of lengths 0..10^6 x digit patterns x placements x exponents incl. i32::MIN/MAX, capacity maximisers and boundary generators, run in both profiles; any panic, abort, signal or NaN/negative result is a violation. High-water marks of big-integer limbs and subnormal shifts are reported as margins.",
+   text="Exploration: deterministic grid of lengths 0..10^6 x digit patterns x placements x exponents incl. i32::MIN/MAX, capacity maximisers, boundary generators and near-halfway bit patterns far beyond either end of the range, run in both profiles; any panic, abort, signal or NaN/negative result is a violation. High-water marks of big-integer limbs and subnormal shifts are reported as margins.",
    note="'Returns' is observed as bounded progress (watchdog => inconclusive)."),
  "C05": dict(engine="eng_parse", ref="DESIGN.md §9 C05",
    technique="runtime monitoring: differential monitor - identical seeded stream through every configuration's binary, chunk hashes of result bits compared, differing chunk replayed to name the input",
@@ -31,7 +31,7 @@ CHECKS = {
    text="Exploration with deciding oracle restricted to >=20 significant digits: tie + zeros, tie + nonzero digit k places out, tie - 1 with tail of nines, truncations, in all layouts and configurations; sticky-digit and w/w+1-disagreement events must be observed.",
    note="Same trusted base as C01; the oracle compares digit strings so every digit is used."),
  "C07": dict(engine="eng_parse", ref="DESIGN.md §9 C07",
-   technique="runtime monitoring: exact-rounding oracle on range-end workloads (thresholds, subnormals, zero significands, exponents to i32::MIN/MAX, compensated 10^6-digit strings)",
+   technique="runtime monitoring: exact-rounding oracle on range-end workloads (thresholds, subnormals, zero significands, exponents to i32::MIN/MAX, compensated 10^6-digit strings, near-halfway bit patterns up to 2^420 beyond either end of the range, continued-fraction worst cases of the end decades)",
    text="Exploration with deciding oracle on the ends of the range for f32 and f64 in all configurations; coverage classes (inf, zero, subnormal, compensated, extreme exponent) are required.",
    note="Same trusted base as C01."),
  "C09": dict(engine="eng_parse", ref="DESIGN.md §9 C09",
@@ -39,7 +39,7 @@ CHECKS = {
    text="Exploration: tens of millions of adjacent pairs around every algorithm switch-over, counted by which tiers decided the two members (from hooks); violation = order inversion.",
    note="Order of inputs decided by exact digit-string comparison in the harness."),
  "C10": dict(engine="eng_parse", ref="DESIGN.md §9 C10",
-   technique="runtime monitoring: metamorphic monitor - all spellings (splits, digits moved to the exponent, leading fraction zeros, 0..40 trailing zeros) of one value must return identical bits",
+   technique="runtime monitoring: metamorphic monitor - all spellings (splits, digits moved to the exponent up to 10^5 places, up to 10^5 leading fraction zeros, positional spelling, 0..40 and occasionally thousands of trailing zeros) of one value (up to 2x10^5 digits) must return identical bits",
    text="Exploration: for each base value every re-splitting is executed in all configurations; distinct internal (mantissa, exponent, truncated) routes per value are counted from hooks to show the spellings really took different paths; 1/8 of the classes are anchored to the exact oracle.",
    note="Metamorphic; absolute correctness comes from the anchor sample and C01/C02."),
  "C08": dict(engine="eng_mem", ref="DESIGN.md §9 C08, §6",
@@ -52,11 +52,11 @@ CHECKS = {
    note="Same oracle as C01; truncated is combined only with 1 <= w <= u64::MAX-1."),
  "C12": dict(engine="eng_bigint", ref="DESIGN.md §9 C12",
    technique="runtime monitoring: reference-model monitor (independent big naturals) after every big-integer operation on both storage back-ends, incl. success/failure against the capacity; Miri slice compared with the native run",
-   text="Exploration: millions of single operations with explicit operands sized to land at 60..64 limbs, all powers 0..1720, all shift counts, sticky bit at every depth, every pair of 1..3-limb vectors over the boundary alphabet {0,1,2,MAX-1,MAX,2^63} (bounded-exhaustive); each result (value, length, Some/None/panic) compared with schoolbook reference arithmetic; a lean slice runs under Miri SB/TB.",
+   text="Exploration: millions of single operations with explicit operands sized to land at 60..64 limbs, all powers 0..1720, all shift counts, sticky bit at every depth, every pair of 1..3-limb vectors over the boundary alphabet {0,1,2,MAX-1,MAX,2^63} (bounded-exhaustive); each result (value, length, Some/None/panic) compared with schoolbook reference arithmetic, and len <= capacity asserted after every operation; operands are built by try_from, by Clone (tight heap allocation) or by new + extend; shift counts also far beyond the capacity (2^8, 2^16, 2^32 + r: must be refused); a lean slice runs under Miri SB/TB.",
    note="Reference naturals are the harness' own (also used by the value oracle, cross-checked against Python)."),
  "C13": dict(engine="eng_bigint", ref="DESIGN.md §9 C13",
    technique="runtime monitoring: executable sequence model checked after every operation of random operation histories on StackVec / HeapVec, natively and under Miri (Stacked + Tree Borrows)",
-   text="Exploration over histories: many short histories (20..400 operations) that fill to capacity, hover and drain, plus every sequence of 4 (quick) / 5 (thorough) capacity-relevant operations from 8 start states (small-scope exhaustive); length, contents, return values, failed-operation-changes-nothing, numeric ordering are compared with a plain-sequence model after every step; the same histories run under Miri where reads of never-written slots or out-of-range writes are Undefined Behaviour reports.",
+   text="Exploration over histories: many short histories (20..400 operations) that fill to capacity, hover and drain, plus every sequence of 4 (quick) / 5 (thorough) capacity-relevant operations from 8 start states (small-scope exhaustive); length, contents, return values, failed-operation-changes-nothing (incl. absurd resize / extend requests that look small after a narrowing cast), numeric ordering are compared with a plain-sequence model after every step, histories carry on with clones; the same histories run under Miri where reads of never-written slots or out-of-range writes are Undefined Behaviour reports.",
    note="Numeric ordering judged on normalized vectors; heap histories stay <= 62 limbs in debug-assertion builds."),
  "C14": dict(engine="eng_consts", ref="DESIGN.md §9 C14",
    technique="runtime monitoring, complete enumeration: the running program of each configuration dumps every power constant it sees (table, u64::pow, std powf, bundled libm); an offline Python checker recomputes each definition",
@@ -68,7 +68,7 @@ CHECKS = {
    note="All Rust heap allocation goes through the global allocator."),
  "C16": dict(engine="eng_pure", ref="DESIGN.md §9 C16",
    technique="runtime monitoring: differential monitor over iterator shapes / buffer addresses / stack poisoning / call history / concurrent callers; Miri data-race and uninitialised-read detection on sampled schedules; ThreadSanitizer in thorough",
-   text="Exploration: each input is parsed through 8 iterator shapes, from differently aligned buffers, after stack poisoning and other parses, and from 3..64 threads; results and hook traces must equal the plain sequential slice-iterator run; Miri runs the same engine with several scheduler seeds, TSan in thorough.",
+   text="Exploration: each input is parsed through 14 fused iterator shapes (chains of exact and inexact pieces, filter, VecDeque, rev, skip/take/step_by, flat_map, peekable, hand-written non-contiguous), from differently aligned buffers, after stack poisoning and other parses, and from 3..64 threads; results and hook traces must equal the plain sequential slice-iterator run; Miri runs the same engine with several scheduler seeds, TSan in thorough.",
    note="Schedules are sampled, not enumerated."),
  "C17": dict(engine="eng_float", ref="DESIGN.md §9 C17",
    technique="runtime monitoring, complete enumeration for f32: all 2^32 bit patterns (and structured + random f64 patterns) checked against IEEE-754 field extraction and an exact hardware recomputation of mantissa x 2^exponent",
@@ -80,7 +80,7 @@ CHECKS = {
    note="Domain as the property states (shifts <= 64; truncating variant judged below 2^(emax+1))."),
  "C19": dict(engine="eng_front", ref="DESIGN.md §9 C19",
    technique="runtime monitoring: reference scanner (from the grammar) + exact rounding oracle observing all seven shipped front-end copies on grammar-directed, mutated and random byte strings; panic monitor",
-   text="Exploration: the copies are compiled from the working tree; (value bits incl. sign, remaining suffix) of each copy must equal the reference on millions of strings incl. absurd exponents, missing parts, special literals in any case and arbitrary bytes.",
+   text="Exploration: the copies are compiled from the working tree; (value bits incl. sign, remaining suffix) of each copy must equal the reference on millions of strings incl. absurd exponents, zero runs of up to 3x10^6 bytes cancelled by equally large exponents, missing parts, special literals in any case and arbitrary bytes.",
    note="NaN judged as 'is NaN'; copies that cannot be located are reported as not examined (inconclusive), never as passing."),
 }
 
